@@ -125,7 +125,7 @@ Fixpoint digits_val (s : str) (acc : N) : option N :=
   end.
 Definition usize_bound : N := 18446744073709551616.
 Definition parse_usize (s : str) : res N :=
-  let s' := match s with 43 :: r => r | _ => s end in
+  let s' := match s with c :: r => if N.eqb c 43 then r else s | [] => s end in
   match s' with
   | [] => Err
   | _ => match digits_val s' 0 with
@@ -331,7 +331,8 @@ Fixpoint dec_aux (fuel : nat) (n : N) (acc : str) : str :=
   | S f => let acc' := (48 + N.modulo n 10) :: acc in
            if N.ltb n 10 then acc' else dec_aux f (N.div n 10) acc'
   end.
-Definition dec (n : N) : str := dec_aux (S (N.to_nat (N.size n))) n [].
+(* a usize has at most 20 decimal digits *)
+Definition dec (n : N) : str := dec_aux 20 n [].
 
 Definition comment_lines (ind : nat) (doc : option str) : list str :=
   match doc with
